@@ -134,3 +134,48 @@ def guards(body, pos):
             return
     scan(0, len(body))
     return out
+
+
+def dominators(body, pos):
+    """Texts of the statements that precede offset pos in each enclosing block of `body`, outermost first — every one of them has
+    been executed (entered, for compound statements) when control reaches pos by falling through."""
+    out = []
+
+    def scan(lo, hi):
+        i = lo
+        while i < hi:
+            i = _skip_ws(body, i)
+            if i >= hi or i > pos:
+                return
+            e = _stmt_end(body, i)
+            if e <= i:
+                e = i + 1
+            if not (i <= pos < e):
+                out.append(body[i:e])
+                i = e
+                continue
+            if body[i] == '{':
+                scan(i + 1, e - 1)
+                return
+            m = re.match(r'(if|while|for|switch)\b\s*\(', body[i:e])
+            if m:
+                p = i + m.end() - 1
+                q = match_paren(body, p)
+                if pos <= q:
+                    return
+                te = _stmt_end(body, q + 1)
+                if pos < te:
+                    scan(q + 1, te)
+                    return
+                k = _skip_ws(body, te)
+                if m.group(1) == 'if' and re.match(r'else\b', body[k:]):
+                    scan(k + 4, e)
+                return
+            if re.match(r'else\b', body[i:]):
+                scan(i + 4, e)
+                return
+            if re.match(r'do\b', body[i:]):
+                scan(i + 2, e)
+            return
+    scan(0, len(body))
+    return out
